@@ -93,11 +93,21 @@ type limitedWriter struct {
 	max int
 }
 
+func (l *limitedWriter) String() string {
+	l.mu.Lock()
+	defer l.mu.Unlock()
+	return l.buf.String()
+}
+
 func (l *limitedWriter) Write(p []byte) (int, error) {
 	l.mu.Lock()
 	defer l.mu.Unlock()
-	if l.buf.Len() < l.max {
-		l.buf.Write(p)
+	// keep the most recent output (what a dying worker printed last is what matters)
+	l.buf.Write(p)
+	if l.buf.Len() > 2*l.max {
+		b := append([]byte{}, l.buf.Bytes()[l.buf.Len()-l.max:]...)
+		l.buf.Reset()
+		l.buf.Write(b)
 	}
 	return len(p), nil
 }
@@ -105,7 +115,7 @@ func (l *limitedWriter) Write(p []byte) (int, error) {
 func (w *chainWorker) kill() {
 	w.in.Close()
 	_ = w.cmd.Process.Kill()
-	_, _ = w.cmd.Process.Wait()
+	_ = w.cmd.Wait() // also waits until the output pipes have been drained
 }
 
 func newChainPool(n int) *chainPool { return newChainPoolWith(n, "", nil) }
@@ -159,8 +169,8 @@ func (p *chainPool) Exec(job Job) JobResult {
 	select {
 	case r := <-ch:
 		if r.err != nil {
+			w.kill() // reaps the process: its last stderr output is complete only after that
 			res.Err = fmt.Sprintf("worker died (%v); output tail: %s", r.err, tail(w.stderr.String(), 1500))
-			w.kill()
 			w = nil
 		} else if err := json.Unmarshal(r.line, &res); err != nil {
 			res.Err = "bad result: " + err.Error()
